@@ -159,7 +159,7 @@ void AutomationMgr::setSlotSub(int slot_id, int par, float value)
         float v = value*(b-a) + a;
         if(v > mx)
             v = mx;
-        else if(v < mn)
+        else if(!(v >= mn))
             v = mn;
 
         rtosc_message(msg, 256, path, "i", (int)roundf(v));
@@ -167,7 +167,7 @@ void AutomationMgr::setSlotSub(int slot_id, int par, float value)
         float v = value*(b-a) + a;
         if(v > mx)
             v = mx;
-        else if(v < mn)
+        else if(!(v >= mn))
             v = mn;
 
         if(au.map.control_scale == 1)
